@@ -184,6 +184,30 @@ def explore(run, tier):
             b = 'cp500' if a == 'latin_1' else 'latin_1'
             for blk in (0, 1):
                 cases.append({'kind': 'ipm', 'tool': 'mideu', 'a': a, 'b': b, 'inb': blk, 'outb': blk, 'msgs': msgs})
+    # records at and next to the maximum record length, and sized to end on a 1012-byte payload boundary
+    ml = c07.c03max()
+    for j, total in enumerate([ml, ml - 1, 2020, 1008, 3032]):
+        for a in codecs3:
+            m = c06.sized_message(rng, a, min(total, 38 + 4 * 1002))
+            if total > 38 + 4 * 1002:      # top up to the requested size with PDS carriers
+                m = dict(m)
+                left = total - (38 + 4 * 1002)
+                for bit in (48, 62):
+                    take = min(left, 1002)
+                    if take >= 3 + 7:
+                        m[f'DE{bit}'] = iu.pds_text([(1, iu.text(rng, a, take - 3 - 7))])
+                        left -= take
+                if left or len(iu.ref_encode(m, iu.pkg_config(), a, False)) != total:
+                    continue
+            b = codecs3[(codecs3.index(a) + 1 + j) % 3]
+            for inb, outb in ((0, 0), (0, 1), (1, 0), (1, 1)):
+                cases.append({'kind': 'ipm', 'tool': 'encode', 'a': a, 'b': b, 'inb': inb, 'outb': outb,
+                              'msgs': [iu.dict_wire(m)]})
+    for n in (ml, ml - 1):
+        rec = bytes((i * 7 + 3) % 256 for i in range(n)).hex()
+        for inb, outb in ((0, 0), (0, 1), (1, 0), (1, 1)):
+            cases.append({'kind': 'param', 'tool': 'param', 'a': 'latin_1', 'b': 'cp500', 'inb': inb, 'outb': outb,
+                          'recs': ['01', rec, '02']})
     for i in range(40 if tier == 'quick' else 400):
         recs = [bytes(rng.getrandbits(8) for _ in range(rng.choice([1, 5, 80, 300, 1012, 2000]))).hex()
                 for _ in range(rng.randrange(1, 8))]
